@@ -279,7 +279,9 @@ impl StdInWorker for ScanStdin {
       return Ok(vec![]);
     };
     let lang = first.language;
-    let combined = CombinedScan::new(self.rules.iter().collect());
+    // the text is parsed as `lang`: only the rules of that language apply to it
+    let rules = self.rules.iter().filter(|r| r.language == lang).collect();
+    let combined = CombinedScan::new(rules);
     let grep = lang.ast_grep(src);
     let path = Path::new("STDIN");
     let file_content = grep.source().to_string();
